@@ -191,7 +191,7 @@ def fl(q):
 class Obj:
     """a node-data class of the harness (":factory": Obj)"""
 
-    def __init__(self, **kw):
+    def __init__(self, /, **kw):
         self.kw = kw
 
 
@@ -843,7 +843,7 @@ PROBS = [[1, 1], [1, 1], [1, 2], [3, 4], [1, 4], [0, 1], [5, 8]]
 CPROBS = [[1, 1], [1, 1], [1, 1], [1, 1], [3, 4], [1, 2], [0, 1]]
 STRS = ["plain", "T {idx}", "{hier_idx}", "N{idx}/{hier_idx}", "b{{x}}{idx}", "", "Zoë {idx}", "H{hier_idx}", "{hier_idx}:{idx}"]
 TEXTS = ["", "lorem", "x{idx}", "h {hier_idx}.", "Ünï {{q}}"]
-KEYS = ["title", "n", "x", "flag", "when", "txt"]
+KEYS = ["title", "n", "x", "flag", "when", "txt", "self", "dict_inst"]
 D0 = datetime.date(2020, 1, 1).toordinal()
 
 
@@ -1012,6 +1012,9 @@ def gen_stream(rng):
 
 
 CORPUS = [
+    # D61: attribute names that collide with DictWrapper.__init__'s own parameters
+    dict(typed=True, name=None, types=None,
+         relations=[["__root__", [["a", [["dict_inst", 1], ["self", "x{idx}"]]]]]], stream=[]),
     # D60: probability 0.0 and random() == 0.0
     dict(typed=False, name=None, types=None,
          relations=[["__root__", [["a", [[":count", 2], ["never", {"R": "Value", "v": "x", "p": [0, 1]}], ["t", "n{idx}"]]]]]],
